@@ -50,6 +50,9 @@ CHECKS = {
  "C16": ("Lean theorem C16 (unmarshal.mutual_induct): for every type description, parameter set and octet string the decoder model returns a value or an error and never reaches a Go index/slice panic (each Go index expression is a partial accessor whose failure is the outcome panic); termination is the acceptance of the well-founded definitions; empty / over-long / zero-length / wrong-tag inputs are errors. Correspondence: outcome class and value of the real Unmarshal under recover() on exhaustive short strings and mutated encodings equals the model's.",
          "Trusted: Lean kernel; the decoder model is hand-written and validated by correspondence on generated octet strings only; reflect.Set* conversions are modelled.",
          "Lean 4 proof of panic-freedom over an executable decoder model + correspondence", "DESIGN.md §5 C16"),
+ "C03": ("Lean theorem C03_file over a model of dumpCdrFile + CDRFile.Encoding (induction over an arbitrary list of marshalled records): if every record is at most 65535 octets the independent TS 32.297 reader reads the written file back as exactly those payloads, header-length/file-length fields equal the real sizes, the count equals the number of records and every record length field equals its payload size (C03_lengths_consistent); C03_oversize shows the limit is necessary. Partial: that the processor never hands dumpCdrFile an oversize record is NOT proved - it is decided on driven histories (growth across header boundaries, requests sized at run time to land exactly on the limit, oversize single requests) and is violated on four listed call sites (known findings). Every written file is read by the Lean TS 32.297 reader, its payloads walked by the Lean X.690 walker and matched against the subscriber's records, and the whole file compared with the dump model.",
+         "Trusted: Lean kernel; the dump model (validated by exact byte comparison on every written file); os file I/O; the record-size limit clause is exploration only.",
+         "Lean 4 proof over a file-writer model + exact correspondence + Lean-evaluated independent reader/walker on written files (partial for the size guard)", "DESIGN.md §5 C03"),
 }
 PENDING_REASON = "check not built yet in this revision (work in progress; DESIGN.md plans a Lean model + correspondence check for it)"
 
